@@ -181,6 +181,7 @@ type VPred func(ssa.Value) bool
 type EdgePred func(cond ssa.Value, branch bool) bool
 
 func stripNot(cond ssa.Value, branch bool) (ssa.Value, bool) {
+	stripEnv = nil
 	for i := 0; i < 8; i++ {
 		if u, ok := cond.(*ssa.UnOp); ok && u.Op == token.NOT {
 			cond, branch = u.X, !branch
@@ -202,6 +203,17 @@ func stripNot(cond ssa.Value, branch bool) (ssa.Value, bool) {
 				if len(rets) == 1 {
 					if rv := resOf(rets[0], 0); rv != nil {
 						if _, isConst := rv.(*ssa.Const); !isConst {
+							// the helper's parameters stand for this call's arguments while the condition is matched
+							env := map[*ssa.Parameter]ssa.Value{}
+							for k, v := range stripEnv {
+								env[k] = v
+							}
+							for k, prm := range callee.Params {
+								if k < len(c.Call.Args) {
+									env[prm] = c.Call.Args[k]
+								}
+							}
+							stripEnv = env
 							cond = rv
 							continue
 						}
@@ -420,7 +432,7 @@ func pathExists(fn *ssa.Function, from, to ssa.Instruction, cutEdge EdgePred, cu
 	if len(fn.Blocks) == 0 {
 		return false
 	}
-	if curProg != nil && curProg.ti != nil && len(curProg.ti.transparent) > 0 {
+	if curProg != nil && curProg.ti != nil {
 		// helpers unknown to the rules are looked through; a query rooted in a helper is asked from every real root
 		any := false
 		for _, root := range rootsOf(fn) {
@@ -430,10 +442,11 @@ func pathExists(fn *ssa.Function, from, to ssa.Instruction, cutEdge EdgePred, cu
 		}
 		return any
 	}
-	seen := map[*ssa.BasicBlock]bool{}
-	var work []*ssa.BasicBlock
+	type bp struct{ b, pred *ssa.BasicBlock }
+	seen := map[bp]bool{}
+	var work []bp
 	// scan runs through a block from index i; returns true when `to` is met; pushes successors when the end is reached
-	scan := func(b *ssa.BasicBlock, i int) bool {
+	scan := func(b, pred *ssa.BasicBlock, i int) bool {
 		for ; i < len(b.Instrs); i++ {
 			in := b.Instrs[i]
 			if in == to {
@@ -444,43 +457,104 @@ func pathExists(fn *ssa.Function, from, to ssa.Instruction, cutEdge EdgePred, cu
 			}
 		}
 		var succs []*ssa.BasicBlock
-		if iff, ok := b.Instrs[len(b.Instrs)-1].(*ssa.If); ok && cutEdge != nil {
-			if !cutEdge(iff.Cond, true) {
-				succs = append(succs, b.Succs[0])
-			}
-			if !cutEdge(iff.Cond, false) {
-				succs = append(succs, b.Succs[1])
+		if iff, ok := b.Instrs[len(b.Instrs)-1].(*ssa.If); ok {
+			cond := condOnEdge(iff, pred)
+			for i, br := range []bool{true, false} {
+				if k, isK := constBool(cond); isK && k != br {
+					continue // the condition is a boolean phi whose value on this incoming edge is a constant
+				}
+				if cutEdge != nil && cutEdge(cond, br) {
+					continue
+				}
+				succs = append(succs, b.Succs[i])
 			}
 		} else {
 			succs = b.Succs
 		}
 		for _, s := range succs {
-			if !seen[s] {
-				seen[s] = true
-				work = append(work, s)
+			k := bp{s, nil}
+			if condIsOwnPhi(s) {
+				k.pred = b
+			}
+			if !seen[k] {
+				seen[k] = true
+				work = append(work, bp{s, b})
 			}
 		}
 		return false
 	}
 	if from == nil {
-		seen[fn.Blocks[0]] = true
-		if scan(fn.Blocks[0], 0) {
+		seen[bp{fn.Blocks[0], nil}] = true
+		if scan(fn.Blocks[0], nil, 0) {
 			return true
 		}
 	} else {
-		if scan(from.Block(), instrIndex(from)+1) {
+		if scan(from.Block(), nil, instrIndex(from)+1) {
 			return true
 		}
 	}
 	for len(work) > 0 {
-		b := work[len(work)-1]
+		w := work[len(work)-1]
 		work = work[:len(work)-1]
-		if scan(b, 0) {
+		if scan(w.b, w.pred, 0) {
 			return true
 		}
 	}
 	return false
 }
+
+// condIsOwnPhi: the block ends in an If whose condition is a phi of this very block (`x := a && b; if x {…}`).
+func condIsOwnPhi(b *ssa.BasicBlock) bool {
+	if len(b.Instrs) == 0 {
+		return false
+	}
+	iff, ok := b.Instrs[len(b.Instrs)-1].(*ssa.If)
+	if !ok {
+		return false
+	}
+	c := iff.Cond
+	for i := 0; i < 4; i++ {
+		if u, ok := c.(*ssa.UnOp); ok && u.Op == token.NOT {
+			c = u.X
+			continue
+		}
+		break
+	}
+	phi, ok := c.(*ssa.Phi)
+	return ok && phi.Block() == b
+}
+
+// condOnEdge returns the condition of iff as seen when its block was entered from pred: a boolean phi of the same
+// block is replaced by its operand for that edge (a constant, or the comparison computed on that path).
+func condOnEdge(iff *ssa.If, pred *ssa.BasicBlock) ssa.Value {
+	if pred == nil || !condIsOwnPhi(iff.Block()) {
+		return iff.Cond
+	}
+	c := iff.Cond
+	neg := false
+	for i := 0; i < 4; i++ {
+		if u, ok := c.(*ssa.UnOp); ok && u.Op == token.NOT {
+			c, neg = u.X, !neg
+			continue
+		}
+		break
+	}
+	phi := c.(*ssa.Phi)
+	for i, p := range phi.Block().Preds {
+		if p == pred {
+			e := phi.Edges[i]
+			if !neg {
+				return e
+			}
+			if k, isK := constBool(e); isK {
+				return ssa.NewConst(constant.MakeBool(!k), e.Type())
+			}
+			return iff.Cond // negated non-constant operand: keep the phi
+		}
+	}
+	return iff.Cond
+}
+
 
 // guardedBy reports whether every path from the function entry (from == nil) or from just after instruction `from`
 // to the instruction target takes at least one If edge accepted by pred.
@@ -682,6 +756,10 @@ func (c *provCtx) walk(v ssa.Value, idx int) {
 			c.walk(b, idx)
 			return
 		}
+		if b, ok := stripEnv[x]; ok {
+			c.walk(b, idx)
+			return
+		}
 		if isTransparent(x.Parent()) {
 			// context-insensitive fallback: the union over every call site of the helper
 			pos := -1
@@ -750,6 +828,10 @@ func (c *provCtx) walk(v ssa.Value, idx int) {
 // paramEnv binds the parameters of a callee to the caller's arguments while a wrapper call is being expanded
 // (interprocedural provenance, depth bound 2). The analysis is single-threaded.
 var paramEnv = map[*ssa.Parameter]ssa.Value{}
+
+// stripEnv binds the parameters of a boolean helper to the arguments of the call whose result is being matched as a
+// condition (set by stripNot, valid until the next condition is matched).
+var stripEnv map[*ssa.Parameter]ssa.Value
 var expandDepth = 0
 
 // expandCall: when an origin is the result of a call to a small repository function (a wrapper/helper), its origins
